@@ -65,6 +65,7 @@ type Assertion struct {
 	Cond                      *Cond
 	HasAttrStmt               bool
 	Attrs                     []AttrRec
+	AttrSplit                 int // when > 0 the attributes are spread over two AttributeStatement elements, the first holding AttrSplit of them
 	Authn                     *Authn
 	Sig                       *SigSpec
 	Enc                       *EncSpec
@@ -212,7 +213,11 @@ func (a *Assertion) Node() *Node {
 	}
 	if a.HasAttrStmt {
 		st := El(NSA, "AttributeStatement")
-		for _, at := range a.Attrs {
+		for ai, at := range a.Attrs {
+			if a.AttrSplit > 0 && ai == a.AttrSplit {
+				n.Add(st)
+				st = El(NSA, "AttributeStatement")
+			}
 			an := El(NSA, "Attribute").AOpt("Name", at.Name).AOpt("NameFormat", at.NameFormat).AOpt("FriendlyName", at.FriendlyName)
 			for _, v := range at.Values {
 				vn := El(NSA, "AttributeValue").T(v.Value)
